@@ -71,6 +71,14 @@ func (b httpBucket) consume(amt int64) (bool, time.Duration, bool) {
 
 func c13Drain(b c13Bucket, cap int64) int64 {
 	var n int64
+	if cap > 2000 { // very large bursts are drained in big gulps first
+		for n+1000 <= cap {
+			if ok, _, _ := b.consume(1000); !ok {
+				break
+			}
+			n += 1000
+		}
+	}
 	for n <= cap+2 {
 		ok, _, _ := b.consume(1)
 		if !ok {
@@ -84,6 +92,10 @@ func c13Drain(b c13Bucket, cap int64) int64 {
 func c13Run(c *Ctx, level string, mk func(rs []rateSpec) c13Bucket) {
 	c.Cases("state", c.N(2500, 80000), func(i int, r *rand.Rand) {
 		rs := genRates(r, 3)
+		if i%7 == 6 { // quota / bandwidth style: long period or huge average, idles of many refill times
+			rs = []rateSpec{pick(r, []rateSpec{{24 * time.Hour, 50000, 5}, {time.Hour, 1000000, 1000000}, {time.Minute, 20000000, 100}, {time.Hour, 3000000, 50}})}
+			c.Count("quota_style_states", 1)
+		}
 		if i%3 == 0 && len(rs) < 2 { // multi-rate shapes in which the short-period bucket refuses while the long one could pay
 			rs = []rateSpec{{time.Second, int64(1 + r.IntN(5)), int64(1 + r.IntN(5))}, {time.Minute, int64(20 + r.IntN(100)), int64(20 + r.IntN(100))}}
 		}
@@ -198,8 +210,17 @@ func c13Run(c *Ctx, level string, mk func(rs []rateSpec) c13Bucket) {
 		}
 		// (iii) full burst after idling burst*period/average
 		c13Drain(B, minBurst)
-		advance(maxRefill)
+		// "after" the statement's idle time includes any longer idle (as long as the source is still remembered or starts afresh)
+		idle := maxRefill
+		if k := r.IntN(4); k > 0 {
+			idle = maxRefill * time.Duration(1+r.IntN(12))
+			if lim := 9 * rs[0].Period; idle > lim && lim > maxRefill {
+				idle = lim
+			}
+		}
+		advance(idle)
 		if got := c13Drain(B, minBurst); got != minBurst {
+			maxRefill = idle
 			c.Violation(level+"/idle-refill", sfmt("rates %v: after idling %v (= max burst*period/average) the source drains %d single tokens, want the full min burst %d", rs, maxRefill, got, minBurst), desc)
 			return
 		}
